@@ -859,6 +859,9 @@ func debugName(d *ssa.DebugRef) string {
 		_ = id
 	}
 	if obj := d.Object(); obj != nil {
+		if v, ok := obj.(*types.Var); ok && v.IsField() {
+			return "" // a field selector (x.f) is not a variable named f
+		}
 		return obj.Name()
 	}
 	return ""
